@@ -22,7 +22,19 @@ def plan(pid, tier, seed):
 
 def case_from_tlc(obj, h, g):
     # every TLC history is built with real git and parsed through the CLI
-    return {"case": "tlc-" + h, "mode": "real", "history": obj["history"]}
+    # the order in which the five summaries are requested on the parsed list is a permutation picked by the case hash
+    names = ["team", "top", "basic", "age", "changelog"]
+    order = []
+    k = int(h[:8], 16)
+    if k % 2 == 1:
+        k //= 2
+        pool = list(names)
+        while pool:
+            order.append(pool.pop(k % len(pool)))
+            k //= 5
+        if k % 3 == 0:
+            order.append(names[k % 5])
+    return {"case": "tlc-" + h, "mode": "real", "history": obj["history"], "order": order}
 
 
 def nontrivial(rec):
